@@ -262,6 +262,8 @@ func refundTokens(ctx *action.Context, tracker *trackerlib.Tracker, oltTx Report
 // Mint oeth After Ether lock is confirmed
 func mintTokens(ctx *action.Context, tracker *trackerlib.Tracker, oltTx ReportFinality) error {
 	ctx.Logger.Info("Finalizing Tracker [ Minting Ether ]  | Process Type : ", tracker.Type.String())
+	// the beneficiary is the account that submitted the lock, whatever the completing report names
+	oltTx.Locker = tracker.ProcessOwner
 	curr, ok := ctx.Currencies.GetCurrencyByName("ETH")
 	if !ok {
 		return errors.New("ETH currency not allowed")
@@ -335,6 +337,8 @@ func burnERC20Tokens(ctx *action.Context, tracker *trackerlib.Tracker, oltTx Rep
 }
 
 func mintERC20tokens(ctx *action.Context, tracker *trackerlib.Tracker, oltTx ReportFinality) error {
+	// the beneficiary is the account that submitted the lock, whatever the completing report names
+	oltTx.Locker = tracker.ProcessOwner
 
 	ethTx, err := ethereum.DecodeTransaction(tracker.SignedETHTx)
 	if err != nil {
